@@ -4,8 +4,10 @@
   `Cls` are the lock classes of the crate, `rank` the order in which they may be nested, `programs` the
   sequence of acquire / release / channel operations of every API call and every background loop body,
   transcribed from the code (file:line in the comments) and cross-checked at run time against the
-  lock-event log of the real crate (DESIGN.md section 5.1). No two locks of one class are ever held together
-  (a DashMap iterator releases a shard before it takes the next one), so instances need no order.
+  lock-event log of the real crate (DESIGN.md section 5.1). Two locks of one class are held together in exactly one
+  place: a DashMap iterator takes the read lock of shard i+1 before it lets go of shard i (observed in the lock log;
+  dashmap-5.4.0 src/iter.rs) — `acqUp`: an instance with a GREATER index than every held instance of that class.
+  Locks are therefore ordered lexicographically by (rank of the class, instance index).
 -/
 import CachedModel.Basic
 
@@ -40,19 +42,21 @@ inductive Chan where
   deriving DecidableEq, Repr, Inhabited
 
 inductive Op where
-  | acq (c : Cls)          -- blocking acquire (read or write: both can block)
-  | rel (c : Cls)
+  | acq (c : Cls)          -- blocking acquire (read or write: both can block) of some instance of class `c`
+  | acqUp (c : Cls)        -- blocking acquire of an instance of `c` with a greater index than every held instance of `c`
+  | rel (c : Cls)          -- release of one held instance of class `c`
   | send (q : Chan)        -- blocking send
   | trySend (q : Chan)     -- non-blocking send (`select!` with `default`)
   | recv (q : Chan)        -- blocking receive
   deriving DecidableEq, Repr, Inhabited
 
-/-- A program keeps the discipline from a given set of held classes: every acquire is of a class ranked above
-    everything held (in particular not of a held class), blocking channel operations hold nothing,
-    releases release something held. -/
+/-- A program keeps the discipline from a given list of held classes: a plain acquire is of a class ranked strictly
+    above everything held; an upward acquire (`acqUp`) may share its class with held locks but nothing held may rank
+    above it; blocking channel operations hold nothing; releases release something held. -/
 def okFrom : List Cls → List Op → Bool
   | _, [] => true
   | held, .acq c :: rest => held.all (fun h => h.rank < c.rank) && okFrom (c :: held) rest
+  | held, .acqUp c :: rest => held.all (fun h => h.rank ≤ c.rank) && okFrom (c :: held) rest
   | held, .rel c :: rest => held.contains c && okFrom (held.erase c) rest
   | held, .send _ :: rest => held.isEmpty && okFrom held rest
   | held, .recv _ :: rest => held.isEmpty && okFrom held rest
@@ -62,6 +66,7 @@ def okFrom : List Cls → List Op → Bool
 def heldAfter : List Cls → List Op → List Cls
   | held, [] => held
   | held, .acq c :: rest => heldAfter (c :: held) rest
+  | held, .acqUp c :: rest => heldAfter (c :: held) rest
   | held, .rel c :: rest => heldAfter (held.erase c) rest
   | held, _ :: rest => heldAfter held rest
 
@@ -91,9 +96,9 @@ def programs : List (String × Option Chan × List Op) := [
   ("worker: Put / PutWithTTL",                                         -- is_present; maybe_add (space check, add | create_space); store.put; ttl put; done
     some cmd, [recv cmd, acq storeShard, rel storeShard, acq wu, rel wu,
                acq af, rel af,                                                   -- estimate of the incoming key
-               acq kwShard, acq af, rel af, rel kwShard,                         -- sample: iterate a shard, estimate under its guard
+               acq kwShard, acq af, rel af, acqUp kwShard, rel kwShard, acq af, rel af, rel kwShard,   -- sample: the DashMap iterator holds shard i while taking shard i+1; estimates under the guard
                acq kwShard, rel kwShard, acq wu, acq storeShard, rel storeShard, rel wu,   -- evict one victim (delete + hook under WU)
-               acq wu, rel wu, acq kwShard, acq af, rel af, rel kwShard,         -- re-check space, refill the sample
+               acq wu, rel wu, acq kwShard, acq af, rel af, acqUp kwShard, rel kwShard, rel kwShard,   -- re-check space, refill the sample (same iteration pattern)
                acq kwShard, rel kwShard, acq wu, rel wu,                         -- add: insert, then total
                acq storeShard, rel storeShard, acq ttlShard, rel ttlShard,       -- store.put(_with_ttl), ttl_ticker.put
                acq ackStatus, rel ackStatus, acq ackWaker, rel ackWaker]),       -- done()
@@ -121,11 +126,42 @@ def consumersOk : Bool :=
     | some q => p.2.2.all (fun op => match op with | .send _ => false | .recv q' => q' == q | _ => true)
     | none => p.2.2.all (fun op => match op with | .recv _ => false | _ => true))
 
+/-- Is the edge "holding a lock of class `held`, acquiring one of class `wanted`" (`same` = the very same lock
+    instance) allowed by the discipline? Used to validate the lock log of the real crate. -/
+def edgeAllowed (held wanted : Cls) (same : Bool) : Bool :=
+  !same && (decide (held.rank < wanted.rank) ||
+    (held == wanted && programs.any (fun p => p.2.2.contains (.acqUp wanted))))
+
+def Cls.ofName? : String → Option Cls
+  | "ttlShard" => some .ttlShard
+  | "kwShard" => some .kwShard
+  | "wu" => some .wu
+  | "storeShard" => some .storeShard
+  | "af" => some .af
+  | "poolBuf" => some .poolBuf
+  | "ackWaker" => some .ackWaker
+  | "ackStatus" => some .ackStatus
+  | _ => none
+
+/-- schedule points of the hooks that are blocking channel operations: nothing may be held there -/
+def blockingChannelPoints : List String := ["cmd.send", "buf.send_shutdown", "worker.recv", "worker.drain", "consumer.recv"]
+
 -- ---------- the abstract system the deadlock theorem is about ----------
 
+/-- a concrete lock: class and instance index; ordered lexicographically by (rank, instance) -/
+structure Lock where
+  cls : Cls
+  inst : Nat
+  deriving DecidableEq, Repr, Inhabited
+
+def Lock.lt (a b : Lock) : Prop := a.cls.rank < b.cls.rank ∨ (a.cls.rank = b.cls.rank ∧ a.inst < b.inst)
+
+instance (a b : Lock) : Decidable (Lock.lt a b) := by unfold Lock.lt; exact inferInstance
+
 structure Thread where
-  held : List Cls                -- classes of the locks it holds
+  held : List Lock               -- the locks it holds
   todo : List Op                 -- the rest of its current program (`[]` = between programs / finished)
+  want : Nat                     -- when `todo` starts with an acquire: the instance index it is acquiring
   consumerOf : Option Chan       -- the channel whose only receiver this thread is
   deriving Repr
 
@@ -134,13 +170,17 @@ structure Sys where
   len : Chan → Nat               -- current length of each channel
   cap : Chan → Nat               -- its capacity
 
-/-- a thread's static discipline: the rest of its program is fine from what it holds -/
+/-- a thread's static discipline: the rest of its program is fine from the classes it holds, an upward acquire at the
+    head really goes upward, it ends holding nothing -/
 def Thread.ok (t : Thread) : Bool :=
-  okFrom t.held t.todo &&
+  okFrom (t.held.map (·.cls)) t.todo &&
+  (match t.todo with
+   | .acqUp c :: _ => t.held.all (fun h => h.cls != c || decide (h.inst < t.want))
+   | _ => true) &&
   (match t.consumerOf with
    | some q => t.todo.all (fun op => match op with | .send _ => false | .recv q' => q' == q | _ => true)
    | none => t.todo.all (fun op => match op with | .recv _ => false | _ => true)) &&
-  (!t.todo.isEmpty || t.held.isEmpty)
+  (heldAfter (t.held.map (·.cls)) t.todo).isEmpty
 
 end Locks
 end Cached
